@@ -100,6 +100,7 @@ func syncDir(dir string) error {
 	}
 
 	err = f.Sync()
+	verifPoint("persist.syncdir.done")
 	closeErr := f.Close()
 	if err != nil {
 		return y.Wrapf(err, "While syncing directory: %s.", dir)
